@@ -164,3 +164,11 @@ def wf_tree(st, S):
 
 def in_tree(x, S):
     return under(x, S)
+
+
+def allocates_only(old, new, *classes):
+    """every object allocated between the two states is an instance of one of the given classes
+    (in particular: no asyncio.Task unless 'Task' is listed)"""
+    o = q()
+    return ForAll([o], Implies(And(Not(old.alive(o)), new.alive(o)), Or([isa[k](o) for k in classes])),
+                  patterns=[new.alive(o)])
